@@ -373,6 +373,11 @@ func srtSubsOf(cues []srtCue, r *rng) *astisub.Subtitles {
 				}
 				ln.Items = append(ln.Items, li)
 			}
+			if len(ln.Items) >= 2 && r.chance(1, 10) {
+				// a run that is nothing but a no-break space, between two other runs (written &nbsp;, which is text)
+				nb := astisub.LineItem{Text: "\u00a0", InlineStyle: &astisub.StyleAttributes{SRTItalics: true}}
+				ln.Items = append(ln.Items[:1], append([]astisub.LineItem{nb}, ln.Items[1:]...)...)
+			}
 			it.Lines = append(it.Lines, ln)
 		}
 		s.Items = append(s.Items, it)
